@@ -60,6 +60,10 @@ pub enum Op {
     /// the caller's facts become one object fact `F` holding the leaves selected by the mask
     FreshNested(u8),
     Aggregate(usize),
+    /// set_config: 0 = DFS, 1 = BFS, 2 = DFS with max_solutions 3 (same max_depth throughout)
+    SetConfig(u8),
+    /// one GRL query text executed through GRLQueryExecutor::execute (it configures the engine itself)
+    GrlQuery(usize),
 }
 
 pub struct Sys {
@@ -71,8 +75,32 @@ pub struct Sys {
     queries_done: Vec<(usize, String)>,
     facts_changed_since: BTreeMap<usize, bool>,
     max_queries: usize,
-    /// 0: flat boolean leaves; 1: value shapes (string "true", object fact); 2: aggregate and NOT queries
+    /// 0: flat boolean leaves; 1: value shapes (string "true", object fact); 2: aggregate and NOT queries;
+    /// 3: configuration changes between queries; 4: GRL query texts through GRLQueryExecutor
     alphabet: u8,
+    /// the configuration the caller asked for (a fresh engine is built with it, never with the used engine's copy)
+    mcfg: rust_rule_engine::backward::backward_engine::BackwardConfig,
+}
+
+fn config_of(k: u8) -> rust_rule_engine::backward::backward_engine::BackwardConfig {
+    use rust_rule_engine::backward::search::SearchStrategy;
+    let mut c = rust_rule_engine::backward::backward_engine::BackwardConfig::default();
+    match k {
+        1 => c.strategy = SearchStrategy::BreadthFirst,
+        2 => c.max_solutions = 3,
+        _ => c.strategy = SearchStrategy::DepthFirst,
+    }
+    c
+}
+
+/// GRL query texts that differ in max-depth and max-solutions only; the goal F.a has two one-step derivations in
+/// program `two_ways`, so the number of solutions shows which max-solutions the search ran with
+fn grl_queries() -> Vec<String> {
+    let mut v = vec![];
+    for (d, m) in [(10, 1), (10, 3), (5, 1), (5, 3)] {
+        v.push(format!("query \"Q{}_{}\" {{\n    goal: F.a == true\n    strategy: depth-first\n    max-depth: {}\n    max-solutions: {}\n}}", d, m, d, m));
+    }
+    v
 }
 
 fn kb_of(prog: &[HRule]) -> KnowledgeBase {
@@ -131,6 +159,7 @@ impl Sys {
             facts_changed_since: BTreeMap::new(),
             max_queries,
             alphabet,
+            mcfg: rust_rule_engine::backward::backward_engine::BackwardConfig::default(),
         }
     }
     fn render(f: &Facts) -> String {
@@ -174,6 +203,25 @@ impl System for Sys {
             v.push(Op::SetLeaf(X, true));
             v.push(Op::SetLeaf(Y, true));
             v.push(Op::FreshFacts(0));
+            return v;
+        }
+        if self.alphabet == 3 {
+            if self.queries_done.len() < self.max_queries {
+                v.push(Op::Query(0));
+                v.push(Op::Query(1));
+            }
+            v.push(Op::SetLeaf(X, true));
+            v.push(Op::FreshFacts(0));
+            for k in 0..3u8 {
+                v.push(Op::SetConfig(k));
+            }
+            return v;
+        }
+        if self.alphabet == 4 {
+            for q in 0..grl_queries().len() {
+                v.push(Op::GrlQuery(q));
+            }
+            v.push(Op::FreshFacts(3));
             return v;
         }
         if self.queries_done.len() < self.max_queries {
@@ -237,6 +285,26 @@ impl System for Sys {
                 }
                 Ok(hstr(&format!("agg{:?}", got)))
             }
+            Op::SetConfig(k) => {
+                self.mcfg = config_of(*k);
+                self.eng.set_config(self.mcfg.clone());
+                Ok(7)
+            }
+            Op::GrlQuery(qi) => {
+                use rust_rule_engine::backward::grl_query::{GRLQueryExecutor, GRLQueryParser};
+                let text = grl_queries()[*qi].clone();
+                let q = GRLQueryParser::parse(&text).map_err(|e| Mismatch::new("grl_query_rejected", format!("{:?}\n{}", e, text)))?;
+                let before = Sys::render(&self.facts);
+                let mut copy = deep_copy(&self.facts);
+                let mut fresh = BackwardEngine::new(self.kb.clone());
+                let exp = GRLQueryExecutor::execute(&q, &mut fresh, &mut copy).map(|r| (r.provable, r.solutions.len())).map_err(|e| format!("{:?}", e));
+                let got = GRLQueryExecutor::execute(&q, &mut self.eng, &mut self.facts).map(|r| (r.provable, r.solutions.len())).map_err(|e| format!("{:?}", e));
+                self.queries_done.push((200 + *qi, before.clone()));
+                if got != exp {
+                    return Err(Mismatch::tagged("grl_query_answer_differs_from_fresh_engine", format!("program {}: GRL query {} (max-depth / max-solutions in its text) on facts {} answered (provable, solutions) = {:?}, a freshly built engine answers {:?}; earlier on this engine: {:?}", programs()[self.prog].0, text.lines().next().unwrap_or(""), before, got, exp, self.queries_done), &["grl_query_executor"]));
+                }
+                Ok(hstr(&format!("grl{:?}", got)))
+            }
             Op::RetractInRete => {
                 if let Some(r) = &self.rete {
                     let mut e = r.lock().unwrap();
@@ -253,7 +321,7 @@ impl System for Sys {
                 let before = Sys::render(&self.facts);
                 // reference: a freshly built engine (and fresh, empty RETE engine) on a deep copy
                 let mut copy = deep_copy(&self.facts);
-                let mut fresh = BackwardEngine::new(self.kb.clone());
+                let mut fresh = BackwardEngine::with_config(self.kb.clone(), self.mcfg.clone());
                 let fresh_rete = self.rete.as_ref().map(|_| Arc::new(Mutex::new(IncrementalEngine::new())));
                 let exp_full = fresh.query_with_rete_engine(q, &mut copy, fresh_rete).map(|r| (r.provable, r.solutions.len())).map_err(|e| format!("{:?}", e));
                 let got_full = self.eng.query_with_rete_engine(q, &mut self.facts, self.rete.clone()).map(|r| (r.provable, r.solutions.len())).map_err(|e| format!("{:?}", e));
@@ -281,7 +349,11 @@ impl System for Sys {
                         }
                     }
                 }
-                if got != exp {
+                // Breadth-first answers are not a function of (rules, facts, configuration) on the unchanged code (two
+                // freshly built engines disagree): queries under it are executed, so that what they leave behind is
+                // part of the history, but only depth-first answers are judged.
+                let judged = matches!(self.mcfg.strategy, rust_rule_engine::backward::search::SearchStrategy::DepthFirst);
+                if judged && got != exp {
                     return Err(Mismatch::tagged(
                         if got == Ok(true) { "stale_positive_answer" } else { "answer_differs_from_fresh_engine" },
                         format!("program {}: query `{}` on facts {} answered {:?}, a freshly built engine answers {:?}; earlier on this engine: {:?}", programs()[self.prog].0, q, before, got, exp, self.queries_done),
@@ -307,6 +379,8 @@ impl System for Sys {
             Op::SetLeafString(_) => "change_fact_type",
             Op::FreshNested(_) => "fresh_nested_facts",
             Op::Aggregate(_) => "aggregate_query",
+            Op::SetConfig(_) => "set_config",
+            Op::GrlQuery(_) => "grl_query",
         }
         .to_string()
     }
@@ -318,8 +392,8 @@ impl System for Sys {
 pub fn run(opts: &Opts) -> Vec<Report> {
     let mut out = vec![];
     let plan: Vec<(&str, bool, usize, usize, u8)> = match opts.tier {
-        Tier::Quick => vec![("memo_on_len5", false, 5, 5, 0), ("rete_attached_len4", true, 4, 4, 0), ("value_shapes_len4", false, 4, 4, 1), ("aggregate_and_not_queries_len4", false, 4, 4, 2)],
-        Tier::Thorough => vec![("memo_on_len6", false, 6, 6, 0), ("rete_attached_len5", true, 5, 5, 0), ("value_shapes_len6", false, 6, 6, 1), ("aggregate_and_not_queries_len5", false, 5, 5, 2)],
+        Tier::Quick => vec![("memo_on_len5", false, 5, 5, 0), ("rete_attached_len4", true, 4, 4, 0), ("value_shapes_len4", false, 4, 4, 1), ("aggregate_and_not_queries_len4", false, 4, 4, 2), ("config_changes_len5", false, 5, 5, 3)],
+        Tier::Thorough => vec![("memo_on_len6", false, 6, 6, 0), ("rete_attached_len5", true, 5, 5, 0), ("value_shapes_len6", false, 6, 6, 1), ("aggregate_and_not_queries_len5", false, 5, 5, 2), ("config_changes_len6", false, 6, 6, 3)],
     };
     for (name, with_rete, depth, maxq, alphabet) in plan {
         if !crate::props::wants(opts, name) {
@@ -327,6 +401,11 @@ pub fn run(opts: &Opts) -> Vec<Report> {
         }
         let mut total = Report::new(name);
         for p in 0..programs().len() {
+            // the GRL-executor alphabet compares solution counts: only on the program where they are a function of
+            // max-solutions alone (two one-step derivations of the goal)
+            if alphabet == 4 && programs()[p].0 != "two_ways" {
+                continue;
+            }
             let mut cfg = Config::new(name, depth);
             cfg.ctx = json!({"program": p, "program_name": programs()[p].0, "rules": programs()[p].1.iter().enumerate().map(|(i, r)| r.grl(&format!("R{}", i))).collect::<Vec<_>>(), "with_rete": with_rete, "max_queries": maxq, "alphabet": alphabet});
             // root candidates come out of a HashSet: a prefix may behave differently when re-executed
@@ -336,6 +415,8 @@ pub fn run(opts: &Opts) -> Vec<Report> {
         let expected: &[&str] = match alphabet {
             1 => &["query", "assert_fact", "change_fact_type", "remove_fact", "fresh_facts", "fresh_nested_facts"],
             2 => &["query", "aggregate_query", "assert_fact", "fresh_facts"],
+            3 => &["query", "set_config", "assert_fact", "fresh_facts"],
+            4 => &["grl_query", "fresh_facts"],
             _ => &["query", "assert_fact", "change_fact", "remove_fact", "fresh_facts"],
         };
         for l in expected {
@@ -345,6 +426,8 @@ pub fn run(opts: &Opts) -> Vec<Report> {
         }
         total.bound = match alphabet {
             1 => format!("12 programs x all histories of length <= {} over query(2 goals) / leaf = true / leaf = the string \"true\" / remove leaf / flat empty store / one object fact F holding any subset of the leaves; default configuration (memoisation on)", depth),
+            3 => format!("12 programs x all histories of length <= {} over query(2 goals) / set_config(DFS | BFS | DFS with max_solutions 3) / assert a leaf / empty store; the fresh engine is built with the configuration last asked for", depth),
+            4 => format!("program two_ways x all histories of length <= {} over 4 GRL query texts (max-depth 5|10 x max-solutions 1|3) through GRLQueryExecutor::execute / store with both leaves; verdict and number of solutions vs a fresh engine", depth),
             2 => format!("12 programs x all histories of length <= {} over query(3 goals + a NOT goal) / query_aggregate(pattern that can match, matches nothing, does not parse) / assert a leaf / empty store; default configuration", depth),
             _ => format!("12 programs x all histories of length <= {} (<= {} queries) over query(3 goals) / assert, change, remove a leaf fact / replace the caller's facts by one of 4 stores{}; default configuration (memoisation on)", depth, maxq, if with_rete { " / retract in the attached RETE engine" } else { "" }),
         };
